@@ -1,8 +1,11 @@
 package sim
 
 import (
+	"encoding/base64"
 	"fmt"
 	"strings"
+
+	"github.com/ory/keto/internal/driver/config"
 
 	"github.com/ory/keto/internal/schema"
 )
@@ -146,6 +149,10 @@ func isSchemaError(msg string) bool {
 func runC11(env *Env, rc *RunCtx) {
 	if rc.Mode == "reject" {
 		runC11Reject(env, rc)
+		return
+	}
+	if rc.Mode == "mutants" {
+		runC11Mutants(env, rc)
 		return
 	}
 	t := rc.CaseTape
@@ -343,4 +350,210 @@ func runC11Reject(env *Env, rc *RunCtx) {
 	if rc.WantSample {
 		rc.Rec.Sample = w
 	}
+}
+
+// mode "mutants": the quantifier of the property is over EVERY program the
+// parser accepts, not only over the well-formed ones. Token-level mutations of
+// a typed program (deletions, duplications, swaps, insertions of operators and
+// brackets) that keto's parser still accepts without errors are installed and
+// every declared (namespace, relation) is checked on a store that conforms to
+// the PARSED types. Oracle: no schema error - and no panic (a panic while the
+// check is being constructed kills the worker; the driver reports and confirms
+// that as a process exit).
+func runC11Mutants(env *Env, rc *RunCtx) {
+	t := rc.CaseTape
+	cfg := genTyped(t)
+	src := cfg.ToOPL()
+	toks := oplTokens(src)
+	// expression-level mutations: a whole leaf "this . ... ( ... )" is replaced by,
+	// or followed by, a degenerate expression
+	if t.Bool(1, 2) {
+		var starts []int
+		for i, tk := range toks {
+			if tk == "this" {
+				starts = append(starts, i)
+			}
+		}
+		if len(starts) > 0 {
+			st := starts[t.Choose(len(starts))]
+			// the leaf ends at the parenthesis that closes its last call
+			end, depth, seen := st, 0, false
+			for j := st; j < len(toks); j++ {
+				if toks[j] == "(" {
+					depth++
+					seen = true
+				}
+				if toks[j] == ")" {
+					depth--
+					if seen && depth == 0 {
+						end = j
+						// a traverse has exactly one call; includes / permits too
+						break
+					}
+				}
+			}
+			junk := []string{"()", "!()", "(())", "!(())", "!!()", "( ( ) )", "!( !() )"}[t.Choose(7)]
+			switch t.Choose(3) {
+			case 0:
+				toks = append(toks[:st], append([]string{junk}, toks[end+1:]...)...)
+			case 1:
+				toks = append(toks[:end+1], append([]string{[]string{"||", "&&"}[t.Choose(2)], junk}, toks[end+1:]...)...)
+			default:
+				toks = append(toks[:st], append([]string{junk, []string{"||", "&&"}[t.Choose(2)]}, toks[st:]...)...)
+			}
+		}
+	}
+	nm := t.Range(0, 2)
+	for i := 0; i < nm && len(toks) > 3; i++ {
+		p := t.Choose(len(toks))
+		switch t.Choose(7) {
+		case 0:
+			toks = append(toks[:p], toks[p+1:]...)
+		case 1:
+			toks = append(toks[:p], append([]string{toks[p]}, toks[p:]...)...)
+		case 2:
+			q := t.Choose(len(toks))
+			toks[p], toks[q] = toks[q], toks[p]
+		default:
+			ins := []string{"()", "!", "(", ")", "!()", "&&", "||", "!(", "( )", "[]", ",", ";", "{}", "this", "ctx"}[t.Choose(15)]
+			toks = append(toks[:p], append([]string{ins}, toks[p:]...)...)
+		}
+	}
+	prog := strings.Join(toks, " ")
+	nn, perrs := schema.Parse(prog)
+	rc.Rec.Execs++
+	if len(perrs) > 0 {
+		rc.Rec.Skipped = "mutant-rejected"
+		return
+	}
+	if len(nn) == 0 {
+		rc.Rec.Skipped = "mutant-empty"
+		return
+	}
+	rc.Count("mutants_accepted", 1)
+	rc.Rec.CaseHash = fmt.Sprintf("%016x", fnv64(prog, 0))
+	// install the text as it is
+	env.Wipe()
+	env.cfgKey = ""
+	c := env.Reg.Config(env.Ctx)
+	strict := t.Bool(1, 2)
+	if err := c.Set(config.KeyNamespaces, map[string]any{
+		"location":                 "base64://" + base64.StdEncoding.EncodeToString([]byte(prog)),
+		"experimental_strict_mode": strict,
+	}); err != nil {
+		rc.Rec.Skipped = "config-set-failed"
+		return
+	}
+	nm2, err := c.NamespaceManager()
+	if err != nil {
+		rc.Rec.Skipped = "manager-failed"
+		return
+	}
+	served, _ := nm2.Namespaces(env.Ctx)
+	if len(served) != len(nn) {
+		rc.Rec.Skipped = "not-served"
+		return
+	}
+	env.SetLimitsCached(Limits{Depth: 5, Width: 100})
+	// a store that conforms to the parsed types
+	var tuples []Tuple
+	known := map[string]bool{}
+	for _, n := range nn {
+		known[n.Name] = true
+	}
+	for _, n := range nn {
+		for _, r := range n.Relations {
+			for _, ty := range r.Types {
+				if !known[ty.Namespace] {
+					continue
+				}
+				for k := 0; k < 2; k++ {
+					tuples = append(tuples, Tuple{NS: n.Name, Obj: fmt.Sprintf("o%d", k), Rel: r.Name, Sub: Subject{Set: &SetRef{NS: ty.Namespace, Obj: fmt.Sprintf("o%d", t.Choose(2)), Rel: ty.Relation}}})
+				}
+				if ty.Relation == "" {
+					tuples = append(tuples, Tuple{NS: n.Name, Obj: "o0", Rel: r.Name, Sub: Subject{ID: "u0"}})
+				}
+			}
+		}
+	}
+	if len(tuples) > 0 {
+		if err := env.Load(tuples); err != nil {
+			rc.Rec.Skipped = "load-failed"
+			return
+		}
+	}
+	rc.Rec.NonTrivial = true
+	e := 0
+	for _, n := range nn {
+		for _, r := range n.Relations {
+			for _, o := range []string{"o0", "o1"} {
+				q := Tuple{NS: n.Name, Obj: o, Rel: r.Name, Sub: Subject{ID: "u0"}}
+				its, err := env.Internal(q)
+				if err != nil {
+					continue
+				}
+				e++
+				if rc.SkipExec(e) {
+					continue
+				}
+				et := rc.ExecTape(e)
+				plan := NoFaults()
+				plan.MaxSteps = 3000
+				res := env.Exec(et, []*Request{{Kind: "check", Tuple: its[0]}}, plan)
+				rc.Rec.Execs++
+				if !res.Returned || len(res.Outs) != 1 {
+					continue
+				}
+				if o := res.Outs[0]; o.Err != "" && isSchemaError(o.Err) {
+					rc.Violate("schema-error-at-check-time", "accepted-mutant", fmt.Sprintf("the parser accepted the document without errors, the store conforms to the parsed types, but check %s failed with %q", q, o.Err),
+						map[string]any{"program": prog, "check": q.String(), "result": o, "strict": strict}, e, et)
+					return
+				}
+			}
+		}
+	}
+	if rc.WantSample {
+		rc.Rec.Sample = map[string]any{"accepted_mutant": prog, "strict": strict}
+	}
+}
+
+// oplTokens splits OPL text into coarse tokens (identifiers, string literals,
+// two-character operators, single characters).
+func oplTokens(s string) []string {
+	var out []string
+	i := 0
+	isId := func(c byte) bool {
+		return c == '_' || (c >= 'a' && c <= 'z') || (c >= 'A' && c <= 'Z') || (c >= '0' && c <= '9')
+	}
+	for i < len(s) {
+		c := s[i]
+		switch {
+		case c == ' ' || c == '\n' || c == '\t':
+			i++
+		case isId(c):
+			j := i
+			for j < len(s) && isId(s[j]) {
+				j++
+			}
+			out = append(out, s[i:j])
+			i = j
+		case c == '"':
+			j := i + 1
+			for j < len(s) && s[j] != '"' {
+				j++
+			}
+			if j < len(s) {
+				j++
+			}
+			out = append(out, s[i:j])
+			i = j
+		case i+1 < len(s) && (s[i:i+2] == "&&" || s[i:i+2] == "||" || s[i:i+2] == "=>"):
+			out = append(out, s[i:i+2])
+			i += 2
+		default:
+			out = append(out, string(c))
+			i++
+		}
+	}
+	return out
 }
